@@ -1,9 +1,10 @@
 """C03: every instruction survives the round trip with exact opcode and immediates."""
 import json, os, re
 from .. import core
+from .bodycommon import run_body
 
 PROOF = "Props/C03.v"
-RUN_FILES = ["Run/CodecRun.v"]
+RUN_FILES = ["Run/CodecRun.v", "Run/BodyRun.v"]
 CORR_NAME = "per-operator decode/encode tables vs. real round trip"
 ASSUMPTIONS = [
     "Gen/Ops.v (wop, plain, decode_plain, encode_plain, map_idx) is regenerated from src/ir/mod.rs, local_function/mod.rs (append_instruction, mem_arg) and local_function/emit.rs (visit_instr, memarg) by /verif/translator on every run; the translator is trusted but every generated arm is re-run against the real code by the per-operator enumerator of this check",
@@ -42,4 +43,11 @@ def correspondence(ctx, thorough, search):
         "input_distribution": {k: meta[k] for k in ("operators_in_wasmparser", "operator_instances_built", "instances_valid", "distinct_operators_accepted_by_validator", "per_proposal", "universe_is_fixpoint")},
         "exhaustive": False,
     }
+    # second correspondence: whole function bodies (structure, labels, locals, dead code)
+    b = run_body(ctx, thorough, search, "C03", stages={1, 4, 5})
+    dis += b["disagreements"]; ov += b["oracle_violations"]
+    bc = b.get("coverage", {})
+    cov["evaluations"] += bc.get("evaluations", 0); cov["distinct_nontrivial"] += bc.get("distinct_nontrivial", 0)
+    cov["traces_validated_against_impl"] += bc.get("traces_validated_against_impl", 0)
+    cov["body_level"] = {k: bc.get(k) for k in ("rule", "input_distribution", "samples", "evaluations")}
     return {"disagreements": dis, "oracle_violations": ov, "coverage": cov}
